@@ -144,6 +144,11 @@ fn conv_level(rng: &mut Rng, o: &ConvOpts, name: String, depth_left: usize, inhe
             }
             if o.delims && rng.chance(1, 4) {
                 a.delim = Some(*rng.pick(&[',', ':']));
+                // the missing-value default is split at the delimiter like any other value
+                if !a.default_missing.is_empty() && rng.coin() {
+                    let d = a.delim.unwrap();
+                    a.default_missing = vec![format!("{}dm0{}{}dm1", a.id, d, a.id)];
+                }
             }
             if rng.chance(1, 6) {
                 let hi = a.eff_num_args().1;
@@ -404,16 +409,19 @@ pub struct LevelIntent {
     pub external: Option<(String, Vec<Vec<u8>>)>,
 }
 
+#[derive(Clone)]
 pub struct IntentOpts {
     pub max_items: usize,
     /// allow repeated Set occurrences (C07)
     pub repeats: bool,
     pub supply_prob: (usize, usize),
+    /// infer_subcommands is in effect through a level above (the setting is inherited)
+    pub infer_subs_inherited: bool,
 }
 
 impl Default for IntentOpts {
     fn default() -> Self {
-        IntentOpts { max_items: 6, repeats: false, supply_prob: (1, 2) }
+        IntentOpts { max_items: 6, repeats: false, supply_prob: (1, 2), infer_subs_inherited: false }
     }
 }
 
@@ -604,7 +612,13 @@ pub fn gen_intent(rng: &mut Rng, c: &CmdSpec, io: &IntentOpts) -> LevelIntent {
                     rng.range(lo, hi)
                 };
                 let ntok = if ntok == 0 && !closed_by_next { lo.max(1) } else { ntok };
-                let toks: Vec<String> = (0..ntok).map(|j| value_tok(rng, a, occ, j)).collect();
+                let mut toks: Vec<String> = (0..ntok).map(|j| value_tok(rng, a, occ, j)).collect();
+                // while an option awaits a value, a word spelled like a subcommand is a value
+                if !prec && !c.subs.is_empty() && !toks.is_empty() && a.vp.is_none() && a.delim.is_none() && !a.allow_hyphen && !a.allow_negative && rng.chance(1, 12) {
+                    let j = rng.below(toks.len());
+                    let s = rng.pick(&c.subs);
+                    toks[j] = if s.aliases.is_empty() || rng.coin() { s.name.clone() } else { rng.pick(&s.aliases).0.clone() };
+                }
                 let open = !a.require_equals && (hi == usize::MAX || ntok < hi);
                 li.items.push(Item::Opt { arg: *oi, toks });
                 if open && !closed_by_next {
@@ -703,6 +717,19 @@ pub fn gen_intent(rng: &mut Rng, c: &CmdSpec, io: &IntentOpts) -> LevelIntent {
             }
         }
     }
+    // with infer_subcommands the empty string is a prefix of every name: where exactly one
+    // subcommand exists it *is* that subcommand (clap's rule, not judged): no empty values there
+    if (c.has(Setting::InferSubcommands) || io.infer_subs_inherited) && !c.subs.is_empty() {
+        for it in li.items.iter_mut() {
+            if let Item::Opt { arg, toks } | Item::Pos { arg, toks } = it {
+                for (j, t) in toks.iter_mut().enumerate() {
+                    if t.is_empty() {
+                        *t = format!("{}e{}", c.args[*arg].id, j);
+                    }
+                }
+            }
+        }
+    }
     // an unbounded positional without terminator directly before a subcommand would swallow it
     let mut sub = sub;
     if let Some(Item::Pos { arg, toks }) = li.items.last() {
@@ -715,7 +742,9 @@ pub fn gen_intent(rng: &mut Rng, c: &CmdSpec, io: &IntentOpts) -> LevelIntent {
         }
     }
     if let Some(si) = sub {
-        let child = gen_intent(rng, &c.subs[si], io);
+        let mut io2 = io.clone();
+        io2.infer_subs_inherited = io.infer_subs_inherited || c.has(Setting::InferSubcommands);
+        let child = gen_intent(rng, &c.subs[si], &io2);
         li.sub = Some((si, Box::new(child)));
     } else if c.has(Setting::AllowExternalSubcommands) && rng.chance(1, 2) {
         // only when no positional is defined at this level could a bare unknown token be external
@@ -1213,7 +1242,7 @@ pub fn expect_level(c: &CmdSpec, li: &LevelIntent, env: &BTreeMap<String, String
                 Item::Flag { arg } if *arg == ai => nflag += 1,
                 Item::Opt { arg, toks } | Item::Pos { arg, toks } if *arg == ai => {
                     if toks.is_empty() {
-                        occs.push(a.default_missing.clone());
+                        occs.push(a.default_missing.iter().flat_map(|t| split_tok(a, t)).collect());
                     } else {
                         occs.push(toks.iter().flat_map(|t| split_tok(a, t)).collect());
                     }
